@@ -61,11 +61,12 @@ CHECKS = {
              "listing, whatever was scanned before) by induction over the two loops; from it: a UID refusal implies "
              "another member holds the UID now, an acknowledged write never creates a second holder, uniqueness is an "
              "invariant of every history, and the answer does not depend on the cache (restart transparency). Tied to "
-             "/repo by differential histories on all four back ends plus a Lean monitor on the implementation trace.",
+             "/repo by differential histories on all four back ends plus a Lean monitor on the implementation trace. "
+             "The except tables that turn a store refusal into the HTTP answer (set_body, create_member, PUT, POST) are TRANSLATED from /repo on every run and proved to compose to the model's mapping (DuplicateUidError -> no-uid-conflict on every write path). After the repair e675e71 an upload is opened as the type it is read back as; the handler part of the coherence hypothesis is proved for every declared content type.",
         note="correspondence is sampling; UIDs are what icalendar reports for a body (computed by the harness, not by "
              "xandikos); uniqueness is proved for histories whose uploads are 'coherent' (handler by content type = "
              "handler by extension, normalisation keeps the UID) — incoherent uploads are exercised by the harness only.",
-        tech="Lean 4 loop-invariant proof of the UID cache + history induction + differential correspondence",
+        tech="Python->Lean translation (except tables) + Lean 4 loop-invariant proof of the UID cache + history induction + differential correspondence",
         ref="5/C06"),
     "C07": dict(
         text="Proof that the tree diff behind sync-collection is exact (member reported changed/removed iff it differs/"
@@ -111,12 +112,13 @@ CHECKS = {
              "0/1/5) is compared with the Lean model of direct evaluation, at the store API and through REPORT on both "
              "front ends; the index-side model is compared with the real index_keys/get_indexes/check_from_indexes on "
              "generated inputs (idxtie.py), and the two real paths with each other on the proved class. "
-             "icalendar._unescape_text (an index-scan while loop) is TRANSLATED from /repo on every run into the Except monad with fuel and proved equal to the model on every text (so it raises no IndexError and terminates); the TEXT and CATEGORIES round-trip theorems are restated on the generated code itself.",
+             "icalendar._unescape_text (an index-scan while loop) is TRANSLATED from /repo on every run into the Except monad with fuel and proved equal to the model on every text (so it raises no IndexError and terminates); the TEXT and CATEGORIES round-trip theorems are restated on the generated code itself. "
+             "AutoIndexManager.find_present_keys (nested loops, flag, counters, index.reset) is TRANSLATED as well and proved equal to the model's findPresentKeys.",
         note="partial: outside the class Simple (several components of one type, repeated properties) the two paths "
              "differ — recorded findings; the text round trip through the index (escape by icalendar, un-escape by "
              "xandikos) and vobject/icalendar parsing are parameters validated by correspondence; unparseable stored "
              "files are not generated.",
-        tech="Python->Lean translation (_unescape_text loop) + Lean 4 state-machine proof (history induction) + proved evaluator agreement on a structural class + differential monitors"
+        tech="Python->Lean translation (_unescape_text loop, find_present_keys) + Lean 4 state-machine proof (history induction) + proved evaluator agreement on a structural class + differential monitors"
              "differential monitors",
         ref="5/C10"),
     "C11": dict(
@@ -165,10 +167,11 @@ CHECKS = {
         text="Proved on the store model: an invalid body is refused with no state change at all; what is stored is the "
              "normal form; every member of every reachable state validates; re-uploading a served body is a no-op "
              "(same ETag, same tree, no commit) given the library facts norm∘norm = norm and UID preservation, which "
-             "are tested on generated bodies, not proved.",
+             "are tested on generated bodies, not proved. "
+             "The except tables of the write path are TRANSLATED and proved to map InvalidFileContents to the valid-calendar-data precondition on every write path; a round-trip probe uploads what the server serves for recurring / overridden / two-zone / alarm / escaped-text objects after expand, time-range, multiget and sync reports.",
         note="parser correctness is icalendar's/vobject's; validity/normal form/UID are computed by the harness calling "
              "the libraries directly, so a change to xandikos' validate()/normalized() shows as a disagreement.",
-        tech="Lean 4 proof parametric in the parser + differential correspondence with library oracle",
+        tech="Python->Lean translation (except tables) + Lean 4 proof parametric in the parser + differential correspondence with library oracle",
         ref="5/C14"),
     "C16": dict(
         text="Hrefs are modelled in Lean on top of the urllib/posixpath models (quote, unquote, urlsplit, split): an "
